@@ -80,8 +80,9 @@ DEFS = [
     enum("ETag", [variant("A"), variant("B", [field("x", U8), field("y", BOOL)]), variant("C", [field("x", STR)])], tag="type"),
     enum("ETagCamel", [variant("UnitVar"), variant("NamedVar", [field("my_field", U8)]),
                        variant("Other", [field("my_field", U8), field("plain", BOOL)], rename_all="camelCase"),
+                       variant("TailVar", [field("tail_field", U8), field("other_one", BOOL, default="trait")]),
                        variant("X", [field("aB", U8)], rename="custom", rename_all="lowercase"),
-                       variant("TailVar", [field("tail_field", U8), field("other_one", BOOL, default="trait")])],
+                       variant("LastVar", [field("myUpper", U8)])],
          tag="kind", rename_all="camelCase"),
     enum("ETagDeny", [variant("Ping", []), variant("V", [field("a", U8)]), variant("U")], tag="t", deny="default"),
     enum("ETagCollide", [variant("V", [field("x", U8)]), variant("W", [field("x", U8, default="trait"), field("y", BOOL)])], tag="x"),
